@@ -16,6 +16,8 @@ Nothing here prints a verdict; ``check_point`` returns a list of failure records
 from __future__ import annotations
 
 import asyncio
+import contextlib
+import io
 import os
 import random
 import shutil
@@ -243,17 +245,49 @@ def points_of(ref: e3.BuildResult) -> list:
     return pts
 
 
-def inspect_db(root: str) -> dict:
-    """Facts about the database a killed director left behind (read from a copy)."""
-    out = {"exists": False}
+def dump_sql(con, hmap: dict) -> dict:
+    """Canonical dump of the persistent tables (the format of harness/e2.py Impl._dump), read with
+    plain SQL; file hashes are numbered in order of first appearance (``hmap`` is shared between
+    the dumps that must be comparable)."""
+    def hid(text):
+        if text is None:
+            return None
+        if text not in hmap:
+            hmap[text] = len(hmap) + 1
+        return hmap[text]
+
+    ids = {i: (kind, label) for i, kind, label in con.execute("SELECT i, kind, label FROM node")}
+    nodes = sorted((list(ids[i]), None if c is None else list(ids[c]), bool(d))
+                   for i, c, d in con.execute("SELECT i, creator, detached FROM node"))
+    files = sorted((ids[n][1], s, hid(h)) for n, s, h in con.execute("SELECT node, state, hash FROM file"))
+    steps = sorted((ids[n][1], s, need, bool(d), dc, hold)
+                   for n, s, need, d, dc, hold in con.execute(
+                       "SELECT node, state, need, deferred, defer_count, _holding FROM step"))
+    deps = sorted((list(ids[a]), list(ids[b]), bool(dy)) for a, b, dy in con.execute(
+        "SELECT source, sink, EXISTS(SELECT 1 FROM dynamic_dep WHERE dynamic_dep.i = dependency.i) "
+        "FROM dependency"))
+    shash = sorted(ids[n][1] for (n,) in con.execute("SELECT node FROM step_hash"))
+    envs = sorted((ids[n][1], name, bool(dy)) for n, name, dy in con.execute(
+        "SELECT node, name, dynamic FROM env_var"))
+    return {"nodes": nodes, "files": files, "steps": steps, "deps": deps, "shash": shash, "envs": envs}
+
+
+def _copy_db(root: str, dest: str) -> str:
     src = os.path.join(root, ".stepup")
-    if not os.path.exists(os.path.join(src, "graph.db")):
+    for name in os.listdir(src):
+        if name.startswith("graph.db"):
+            shutil.copy2(os.path.join(src, name), os.path.join(dest, name))
+    return os.path.join(dest, "graph.db")
+
+
+def inspect_db(root: str) -> dict:
+    """Facts about the database a killed director left behind (read from copies)."""
+    out = {"exists": False}
+    if not os.path.exists(os.path.join(root, ".stepup", "graph.db")):
         return out
+    hmap: dict = {}
     with tempfile.TemporaryDirectory(prefix="c05db-") as tmp:
-        for name in os.listdir(src):
-            if name.startswith("graph.db"):
-                shutil.copy2(os.path.join(src, name), os.path.join(tmp, name))
-        con = sqlite3.connect(os.path.join(tmp, "graph.db"))
+        con = sqlite3.connect(_copy_db(root, tmp))
         try:
             tables = {r[0] for r in con.execute("SELECT name FROM sqlite_master WHERE type='table'")}
             out["exists"] = True
@@ -279,9 +313,14 @@ def inspect_db(root: str) -> dict:
                     (RUNNING, BUILT)):
                 built.setdefault(label, set()).add(path)
             out["running_built_outputs"] = {k: sorted(v) for k, v in built.items()}
+            if out["nodes"] > 0:
+                out["dump0"] = dump_sql(con, hmap)
         finally:
             con.close()
         out["strict_open"] = _strict_open(os.path.join(tmp, "graph.db"))
+    if "dump0" in out:
+        with tempfile.TemporaryDirectory(prefix="c05db-") as tmp:
+            out["dump2"], out["reset_error"] = _real_reset(_copy_db(root, tmp), hmap)
     return out
 
 
@@ -308,6 +347,33 @@ def _strict_open(path: str) -> str | None:
         else:
             os.environ["STEPUP_DEBUG"] = old
     return None
+
+
+def _real_reset(path: str, hmap: dict):
+    """The real Workflow.initialize (non-strict: with its repair) followed by the real
+    startup.reset_interrupted_steps on a copy of the crashed database; returns the dump."""
+    from stepup.core.reporter import ReporterClient
+    from stepup.core.sqlite3 import DBSession
+    from stepup.core.startup import reset_interrupted_steps
+    from stepup.core.workflow import Workflow
+
+    async def go():
+        with DBSession.open(path) as db:
+            wf = Workflow(db, dir_queue=None, defer_cap=100, targets=[], target_dirs=[])
+            await wf.initialize()
+            await reset_interrupted_steps(wf, ReporterClient())
+            async with db:
+                return dump_sql(db._con, hmap)
+
+    old = os.environ.pop("STEPUP_DEBUG", None)
+    try:
+        with contextlib.redirect_stdout(io.StringIO()):     # the default reporter prints
+            return asyncio.run(asyncio.wait_for(go(), 30)), None
+    except Exception as exc:  # noqa: BLE001
+        return None, f"{type(exc).__name__}: {exc}"
+    finally:
+        if old is not None:
+            os.environ["STEPUP_DEBUG"] = old
 
 
 def _window(info: dict) -> str:
@@ -404,7 +470,8 @@ def check_point(case: dict, snap: str, project: e3.Project, ref: e3.BuildResult,
             rr2 = e3.build(tmp, project.program, env=dict(project.env), **kw)
             fails = classify(out.crash_info, ref, db, rr, rr2)
         return {"point": point, "crashed": True, "info": out.crash_info, "fails": fails,
-                "db": {k: db.get(k) for k in ("running", "checking", "unconfirmed", "nodes")},
+                "db": {k: db.get(k) for k in ("running", "checking", "unconfirmed", "nodes", "dump0", "dump2",
+                                              "strict_open", "reset_error", "exists")},
                 "restart_executed": rr.executed(), "restart_rc": rr.returncode}
 
 
@@ -419,7 +486,10 @@ def run_job(job: dict) -> dict:
             pts = job["points"]
         elif job.get("sample") is not None:
             rng = random.Random(f"c05-pts-{case['name']}-{case['seed']}-{job.get('seed', 0)}")
-            pts = rng.sample(pts, min(job["sample"], len(pts)))
+            stages = [p for p in pts if p["kind"] == "stage"]
+            commits = [p for p in pts if p["kind"] == "commit"]
+            take = rng.sample(stages, min(3, len(stages)))
+            pts = take + rng.sample(commits, min(job["sample"] - len(take), len(commits)))
         results = [check_point(case, snap, project, ref, pt) for pt in pts]
     return {"case": case, "ref": {"rc": ref.returncode, "error": ref.error, "commits": len(ref.commit_points),
                                   "stages": len(ref.stage_points), "executed": ref.executed(),
@@ -440,3 +510,11 @@ def witness_d6() -> dict:
 def witness_d13() -> dict:
     plan = [{"op": "step", "label": "mk a", "out": ["a.txt"]}]
     return {"name": "witness-d13", "seed": 0, "project": _proj({}, plan).to_json(), "history": [], "build": {}}
+
+
+def witness_d6b() -> dict:
+    plan = [{"op": "step", "label": "o", "out": ["o.txt"], "need": "OPTIONAL"},
+            {"op": "step", "label": "u", "inp": ["o.txt"], "out": ["u.txt"]}]
+    p = _proj({}, plan)
+    return {"name": "witness-d6b", "seed": 0, "project": p.to_json(),
+            "history": [{"edits": [{"op": "script", "path": "plan.py", "actions": plan[:1]}]}], "build": {}}
